@@ -6,7 +6,8 @@
    variance (np.std, ddof = 0) of the unmasked values, the rolling mode the sample variance
    (pandas Rolling.std, ddof = 1) of the non-NaN values of the window.
 
-   The model follows the source: check_type dispatch, `if test_period:` (None and 0 are falsy),
+   The model follows the source: check_type dispatch, empty input returned as is,
+   `if test_period:` (None and 0 are falsy),
    min_periods (min_obs, else min_period / median sampling step, else None = 1), the pandas
    variable-window bounds for an offset window closed on the right, Rolling.std / Rolling.apply(np.ptp,
    raw=True) semantics, then the overwrites GOOD, SUSPECT, UNKNOWN (NaN), FAIL, MISSING in that order. *)
@@ -166,6 +167,8 @@ Definition atten_model (check : string) (st ft : Q) (test_period min_obs min_per
   | None => Raises ValueError
   | Some ct =>
       let n := length xs in
+      (* if inp.size == 0: return flag_arr  -- before anything else is looked at *)
+      if Nat.eqb n 0 then Flags [] else
       match period_of test_period with
       | Some p =>
           match min_periods min_obs min_period ts with
@@ -182,11 +185,8 @@ Definition atten_model (check : string) (st ft : Q) (test_period min_obs min_per
                 Flags (atten_flags ct st ft xs cv)
           end
       | None =>
-          (* np.ptp of a zero-size array raises; np.std gives nan *)
-          if match ct with Range => Nat.eqb n 0 | Std => false end then Raises ValueError
-          else
-            let s := whole_spread ct xs in
-            Flags (atten_flags ct st ft xs (tab n (fun _ => s)))
+          let s := whole_spread ct xs in
+          Flags (atten_flags ct st ft xs (tab n (fun _ => s)))
       end
   end.
 
